@@ -16,3 +16,23 @@ Lemma no_ambient_input_C01 : ambient_input_sites_C01 = [].
 Proof. reflexivity. Qed.
 Lemma sources_were_scanned_C01 : source_files_scanned_C01 <> 0.
 Proof. discriminate. Qed.
+
+(* The types this property reaches get Clone / Copy / PartialEq / Eq / Hash / Ord / PartialOrd by `derive` only
+   (field-wise semantics, which is what the models assume: e.g. comparing a NormalizedString compares
+   (array, length), cloning a cipher half copies every field) and none of them, nor Drop, is written by hand.
+   The list is re-read from the source on every run; a hand-written `impl Clone` (whose `clone_from` may leave
+   stale bytes behind), a hand-written comparison, or a derive removed from a type shows here. *)
+Local Open Scope string_scope.
+Lemma structural_traits_pinned_C01 : structural_traits_C01 =
+  ["src/client.rs: SrpClient derives Clone Debug Eq Hash Ord PartialEq PartialOrd";
+   "src/client.rs: SrpClientChallenge derives Clone Debug Eq Hash Ord PartialEq PartialOrd";
+   "src/client.rs: SrpClientReconnection derives Clone Copy Debug Default Eq Hash Ord PartialEq PartialOrd";
+   "src/error.rs: InvalidPublicKeyError derives Debug";
+   "src/error.rs: MatchProofsError derives Debug";
+   "src/error.rs: NormalizedStringError derives Debug";
+   "src/error.rs: SrpError derives Debug";
+   "src/error.rs: UnsplitCryptoError derives Debug";
+   "src/key.rs: $name derives Clone Copy Debug Eq Hash Ord PartialEq PartialOrd";
+   "src/normalized_string.rs: NormalizedString derives Clone Debug Eq Hash Ord PartialEq PartialOrd";
+   "src/server.rs: SrpVerifier derives Clone Debug Eq Hash Ord PartialEq PartialOrd"].
+Proof. reflexivity. Qed.
